@@ -1149,6 +1149,22 @@ func (x *Exec) bigStub(st *State, f *Frame, in *ssa.Call, fn *ssa.Function, name
 		st.bigv[objOf(args[0])] = r
 		x.ret(f, in, args[0])
 		return true
+	case "(*math/big.Int).FillBytes":
+		// big-endian value into the whole buffer, zero-extended (panics if it does not fit: buffers shorter than 32 bytes are outside the model)
+		v := val(args[0])
+		buf := args[1].(S)
+		if buf.ln < 32 {
+			x.fail("big.Int.FillBytes into fewer than 32 bytes is outside the 256-bit model")
+		}
+		for i := 0; i < buf.ln; i++ {
+			var b Val = W{d.ConstI(8, 0)}
+			if i >= buf.ln-32 {
+				b = W{d.Extract(v, 8*(buf.ln-1-i), 8)}
+			}
+			x.writeSlot(st, buf.obj, buf.off+i, b)
+		}
+		x.ret(f, in, buf)
+		return true
 	case "(*math/big.Int).Bytes":
 		v := val(args[0])
 		// minimal big-endian encoding: length L in 0..32, exhaustive and mutually exclusive
